@@ -167,3 +167,39 @@ def eval_bool(test, atom):
     if isinstance(test, ast.Constant):
         return bool(test.value)
     return None
+
+
+def decide_by_assignments(test, events):
+    """Decide `X is None` / `X is not None` / `X` / `not X` from the last assignment to the local X on
+    this path (constant None -> None; a constructor call / literal -> not None).  Otherwise None."""
+    neg = False
+    t = test
+    if isinstance(t, ast.UnaryOp) and isinstance(t.op, ast.Not):
+        neg, t = True, t.operand
+    name, want_none = None, None
+    if isinstance(t, ast.Compare) and len(t.ops) == 1 and isinstance(t.left, ast.Name) \
+            and isinstance(t.comparators[0], ast.Constant) and t.comparators[0].value is None:
+        name = t.left.id
+        want_none = isinstance(t.ops[0], (ast.Is, ast.Eq))
+        if not isinstance(t.ops[0], (ast.Is, ast.Eq, ast.IsNot, ast.NotEq)):
+            return None
+    elif isinstance(t, ast.Name):
+        name, want_none = t.id, False
+    else:
+        return None
+    last = None
+    for e in events:
+        if e[0] == "stmt" and isinstance(e[1], ast.Assign):
+            for tg in e[1].targets:
+                if isinstance(tg, ast.Name) and tg.id == name:
+                    last = e[1].value
+    if last is None:
+        return None
+    if isinstance(last, ast.Constant) and last.value is None:
+        is_none = True
+    elif isinstance(last, ast.Call) and isinstance(last.func, ast.Name) and last.func.id[:1].isupper():
+        is_none = False
+    else:
+        return None
+    res = (is_none == want_none)
+    return (not res) if neg else res
